@@ -162,7 +162,7 @@ def main():
     n_sites, shard, n_shards, outfile = int(sys.argv[1]), int(sys.argv[2]), int(sys.argv[3]), sys.argv[4]
     run("git checkout -q -- .", REPO)
     all_sites = sites()
-    rnd = random.Random(20261003)
+    rnd = random.Random(int(os.environ.get("SWEEP_SEED", "20261003")))
     # stratify: at most sqrt-proportional share per file, tables (symbol_size.rs) capped
     byfile = {}
     for s in all_sites:
@@ -175,6 +175,14 @@ def main():
         chosen.extend(v[:k])
     chosen.sort()
     done = set()
+    prev = os.path.join(os.path.dirname(os.path.dirname(os.path.abspath(__file__))), "sensitivity", "sweep.jsonl")
+    for pth in (prev,):
+        if os.path.exists(pth):
+            for l in open(pth):
+                try:
+                    done.add(json.loads(l)["id"])
+                except Exception:
+                    pass
     if os.path.exists(outfile):
         for l in open(outfile):
             try:
